@@ -241,7 +241,11 @@ class C04(common.Prop):
                     cvals.append([[[self.word(rng) for _ in range(max(0, L - 1))], self.word(rng, conf=True)] for _ in c["points"]])
                 people.append([rng.choice([0, 1, k, -1, 32767, -32768, 7]), cvals])
             frames.append(people)
-        return {"kind": "v00", "version": rng.choice([0, 0, 0, 0x80000000]), "dims": [rng.choice([0, 640, 65535]), 480, 0], "comps": comps,
+        # mostly +0.0 / -0.0; sometimes a tiny non-zero float (|v| < 0.0005): NOT version 0, must be refused even though the
+        # body parses in the v0.0 layout
+        ver = rng.choice([0, 0, 0, 0x80000000]) if rng.random() < 0.9 else \
+            rng.choice([1, 0x80000001, 0x00800000, f32w(4e-4), f32w(-3e-4), f32w(1e-10), f32w(4.9e-4)])
+        return {"kind": "v00", "version": ver, "dims": [rng.choice([0, 640, 65535]), 480, 0], "comps": comps,
                 "fps": rng.choice([30, 25, 24, 0, 1, 60, 65535, 1000]), "frames": frames, "edge": edge}
 
     def gen_v01(self, rng, big=False):
@@ -287,7 +291,8 @@ class C04(common.Prop):
             if edge == "none" and rng.random() < 0.05:
                 edge = "extra-bytes"       # payload not a whole number of frames: the count is the floor
                 conf[-1] = conf[-1] + [0]
-        return {"kind": "v01", "version": rng.choice([V01_WORD, V01_WORD, V01_WORD, 0x3DCC8000, 0x3DCD8000]), "dims": [640, 480, 0], "comps": comps,
+        # float32(0.1), two neighbours inside the 3-decimal tolerance, and the two nearest floats outside it (refused)
+        return {"kind": "v01", "version": rng.choice([V01_WORD] * 6 + [0x3DCC8000, 0x3DCD8000, 1036764840, 1036899057, 1036764839, 1036899058]), "dims": [640, 480, 0], "comps": comps,
                 "fps": rng.choice([30, 25, 24, 0, 1, 60, 65535, 1000]), "field": field, "P": P, "data": data, "conf": conf, "edge": edge}
 
     def gen_version(self, rng):
